@@ -1273,14 +1273,18 @@ class DeadBandRT(DeadBand):
          - hold when (previous zi == zi)
          - clear otherwise
         """
+        # flags before this update
+        zu0, zl0, zi0 = np.array(self.zu), np.array(self.zl), np.array(self.zi)
+
         DeadBand.check_var(self, *args, **kwargs)
 
         if not self.enable:
             return
 
         # square return dead band
-        self.zur[:] = np.equal(self.zu + self.zi, 2) + self.zur * np.equal(self.zi, self.zi)
-        self.zlr[:] = np.equal(self.zl + self.zi, 2) + self.zlr * np.equal(self.zi, self.zi)
+        hold = np.equal(zi0, self.zi)
+        self.zur[:] = np.equal(zu0 + self.zi, 2) + self.zur * hold
+        self.zlr[:] = np.equal(zl0 + self.zi, 2) + self.zlr * hold
 
 
 class Delay(Discrete):
